@@ -1012,6 +1012,8 @@ def entered_states(conds, repo) -> Optional[Set[str]]:
         if e is None or not (isinstance(e, ast.Compare) and len(e.ops) == 1):
             continue
         op, l, r = e.ops[0], e.left, e.comparators[0]
+        if isinstance(op, (ast.Eq, ast.NotEq)) and isinstance(r, ast.Call) and 'transition_table' in ast.unparse(r):
+            l, r = r, l
         if not (isinstance(l, ast.Call) and 'transition_table' in ast.unparse(l)):
             continue
         if (isinstance(op, ast.In) and pol) or (isinstance(op, ast.NotIn) and not pol):
@@ -1024,4 +1026,20 @@ def entered_states(conds, repo) -> Optional[Set[str]]:
             if isinstance(v, int):
                 names = {by_value.get(int(v), 'state %r' % (v,))}
                 found = names if found is None else (found & names)
+        # the complements: every state but the listed ones
+        elif (isinstance(op, ast.NotIn) and pol) or (isinstance(op, ast.In) and not pol):
+            coll = repo.try_fold(r, fsm_mod, None)
+            if isinstance(coll, (set, frozenset, tuple, list)) and all(isinstance(x, int) for x in coll):
+                names = set(by_value.values()) - {by_value.get(int(x)) for x in coll}
+                found = names if found is None else (found & names)
+        elif (isinstance(op, ast.NotEq) and pol) or (isinstance(op, ast.Eq) and not pol):
+            v = repo.try_fold(r, fsm_mod, None)
+            if isinstance(v, int):
+                names = set(by_value.values()) - {by_value.get(int(v))}
+                found = names if found is None else (found & names)
     return found
+
+
+# PS3.8 Table 9-10, row Evt10 (P-DATA-TF PDU received): DT-2 in Sta6, AR-6 in Sta7, an abort (AA-1 / AA-7 / AA-8) in every other
+# state -- the states in which a message under reassembly can still be completed
+REASSEMBLY_STATES = ('STA_6', 'STA_7')
